@@ -121,8 +121,24 @@ def probes(ops, limit):
     return pick
 
 
-def one_case(case, limit):
+# Worlds of different cases (and the replay worlds of one case) reuse interface / class names, so
+# their specifications compare equal by (name, module) and share one entry in the weak
+# ``dependents`` dictionaries of the two process-wide specifications (Interface,
+# implementedBy(object)).  If an earlier world were garbage collected that shared entry would
+# vanish and a later ``__bases__`` assignment would fail to unsubscribe (KeyError).  This is an
+# artefact of running many worlds in one process (cf. finding F10), not of the property: keep
+# every world alive until the process ends.
+KEEP = []
+
+
+def new_world(case):
     w = R.World(case)
+    KEEP.append(w)
+    return w
+
+
+def one_case(case, limit):
+    w = new_world(case)
     first = []
     first_bases(w, first)
     answers, assigns, provides, trouble = [], [], [], []
@@ -136,7 +152,7 @@ def one_case(case, limit):
     kinds = list(w.kinds)
     erased = []
     for i in probes(case["ops"], limit):
-        w2 = R.World(case)
+        w2 = new_world(case)
         pre = [op for op in case["ops"][:i] if op[0] in MUTATIONS]
         run(w2, pre, [], False)
         a, _s, _p, _t = run(w2, [case["ops"][i]], [], False)
